@@ -147,7 +147,7 @@ impl Prop for C12 {
         "C12"
     }
     fn rule_text(&self) -> String {
-        "case = defseq table of 1-5 sequences of 1-4 items (plain keys, S-/C-/A- chorded keys and groups, O-(...) groups of 2-5 keys) over 8 letters, deliberately including prefix / duplicate / permutation conflicts, one marker key per sequence; sequence-timeout T in {10,25,100}; the three input modes, a second leader with (sequence T2 mode2), sequence-always-on. Static oracle: an accepted table has no expansion (every permutation of its O-groups) that is a prefix of an expansion of another sequence, recomputed independently from the generated structure. Dynamic oracle per segment (segments are separated by > T idle): leader + the whole sequence with press-to-press gaps < T => its marker pressed exactly once, no other marker, mode left; proper prefix + a key that is in no sequence => no marker, mode left; prefix + gap in {T-1,T,T+1,T+5} => continues iff gap < T; the real sequence state (active / inactive) is compared after every event; hidden modes press no typed key at the OS while the mode is active, hidden-delay-type types them as taps exactly when the sequence fails, visible-backspaced sends exactly one backspace per typed character on completion and none on failure. non-trivial = at least one marker fired; distinct = config x history hash.".into()
+        "case = defseq table of 1-5 sequences of 1-4 items (plain keys, S-/C-/A- chorded keys and groups, O-(...) groups of 2-5 keys) over 8 letters, deliberately including prefix / duplicate / permutation conflicts, one marker key per sequence; sequence-timeout T in {10,25,100}; the three input modes, a second leader with (sequence T2 mode2), sequence-always-on, OS repeat events for typed keys while held. Static oracle: an accepted table has no expansion (every permutation of its O-groups) that is a prefix of an expansion of another sequence, recomputed independently from the generated structure. Dynamic oracle per segment (segments are separated by > T idle): leader + the whole sequence with press-to-press gaps < T => its marker pressed exactly once, no other marker, mode left; proper prefix + a key that is in no sequence => no marker, mode left; prefix + gap in {T-1,T,T+1,T+5} => continues iff gap < T; the real sequence state (active / inactive) is compared after every event; hidden modes press no typed key at the OS while the mode is active, hidden-delay-type types them as taps exactly when the sequence fails, visible-backspaced sends exactly one backspace per typed character on completion and none on failure. non-trivial = at least one marker fired; distinct = config x history hash.".into()
     }
     fn runs(&self, tier: Tier) -> u64 {
         match tier {
@@ -295,6 +295,9 @@ impl Prop for C12 {
             let small = |r: &mut Rng| -> u32 { r.range(1, ((tt - 1) / 5).max(1).min(6)) as u32 };
             let mut typed: Vec<String> = vec![];
             let mut end_at = usize::MAX;
+            // OS auto-repeat events for a typed key while it is held: they are not part of the
+            // sequence; the hidden modes must not let them through either
+            let with_repeats = tt >= 25 && r.chance(300);
             // type items [0, upto)
             let type_items = |r: &mut Rng, ops: &mut Vec<Op>, typed: &mut Vec<String>, items: &[Item], end_at: &mut usize| {
                 for it in items {
@@ -302,6 +305,10 @@ impl Prop for C12 {
                         Item::Plain(k) => {
                             *end_at = ops.len();
                             ops.push(Op::Press(code(k)));
+                            if with_repeats && r.chance(500) {
+                                ops.push(Op::Gap(1));
+                                ops.push(Op::Repeat(code(k)));
+                            }
                             ops.push(Op::Gap(small(r)));
                             ops.push(Op::Release(code(k)));
                             ops.push(Op::Gap(small(r)));
@@ -631,7 +638,7 @@ impl Prop for C12 {
                 "hidden-suppressed" | "hidden-delay-type" => {
                     // no press of a typed key while the mode is active; (delay-type flushes on failure)
                     let flush_ok = sg.mode == "hidden-delay-type" && sg.kind == "foreign";
-                    let presses: Vec<&OutEv> = in_mode.iter().filter(|e| e.kind == OutKind::Press && marker_idx(&e.key).is_none()).collect();
+                    let presses: Vec<&OutEv> = in_mode.iter().filter(|e| (e.kind == OutKind::Press || e.kind == OutKind::RepeatOut) && marker_idx(&e.key).is_none()).collect();
                     if !flush_ok && !presses.is_empty() {
                         o.set_fail("C12:hidden-mode-pressed-a-typed-key", format!("{} pressed at the OS while the sequence was in progress; {}", presses[0].key, show()), ftags.clone());
                         return o;
